@@ -13,7 +13,7 @@ A *case* is plain JSON-like data:
            "logic": {"ref": T} | {"switch": {"on": E, "cases": [[case, T], ...], "default": T|None}},
            "state": E|None, "cond": [type, name]|None}
     T     {"fn": id} | {"wf": name}
-    E     {"lit": json} | {"path": [root, key, ...]} | {"map": [[key, E], ...]} | {"list": [E, ...]} | {"bad": True}
+    E     {"lit": json} | {"path": [root, key, ...]} | {"map": [[key, E], ...]} | {"list": [E, ...]} | {"call": f, "args": [E, ...]} | {"bad": True}
     FN    {"c": ok|skip|depSkip|retry|permFail, "d": delay, "how": "pre"|"eval"|None, "by": key|None,
            optional: "name" (Koreo resource name if not the id), "noret" (no `return`: Ok value null),
            "showres" (Ok value also carries resource.spec.tag, which is the id); rf optional: "kind", "apiVersion", "noplural"
@@ -50,9 +50,10 @@ RF_MODES = {          # mode -> (class, calls, needs object: None absent / "matc
     "create": ("retry", ["GET", "POST"], None),
     "patch": ("retry", ["GET", "PATCH"], "differ"),
     "recreate": ("retry", ["GET", "DELETE"], "differ"),     # update policy `recreate` (only C09 assigns it)
+    "delete": ("retry", ["GET", "DELETE"], "any"),          # apiConfig.deleteIfExists (only C09 assigns it)
 }
 READONLY_MODES = ("get-ok", "get-retry")
-MUTATING = ("create", "patch", "recreate")
+MUTATING = ("create", "patch", "recreate", "delete")
 
 
 # --------------------------------------------------------------------------- expressions
@@ -79,6 +80,9 @@ def expr_steps(e, out=None):
             expr_steps(x, out)
     elif "list" in e:
         for x in e["list"]:
+            expr_steps(x, out)
+    elif "call" in e:
+        for x in e["args"]:
             expr_steps(x, out)
     return out
 
@@ -620,6 +624,111 @@ def gen_group_collision_case(r):
     return {"trig": gen_trigger(r), "main": "main", "defs": [{"name": "main", "steps": steps}], "fns": fns}
 
 
+def call(f, *args):
+    return {"call": f, "args": list(args)}
+
+
+def gen_alias_case(r):
+    """≥ 2 consumers of ONE dependency value, some of them applying koreo's list/map functions (`flatten()`,
+    `overlay()`) to parts of it; the value's nested lists / maps come from literals (or from the trigger), so what the
+    dependency returned is known exactly"""
+    fns, steps = {}, []
+    lsts = [[r.choice(SCALARS[3:]) for _ in range(r.randint(1, 3))] for _ in range(r.randint(2, 4))]
+    m = {"a": {"b": 1, "c": [1]}, "d": r.choice(SCALARS), "e": {"f": {"g": 2}}}
+    trig = gen_trigger(r)
+    trig["lol"] = [[1, 2], [3], [4, 5]]
+    fns["main.st0"] = _vf() if r.random() < 0.7 else _rf("main.st0", "get-ok")
+    steps.append(_step("st0", {"ref": {"fn": "main.st0"}}, inputs={"map": [["lst", lit(lsts)], ["m", lit(m)]]}))
+    src_l = lambda: r.choice([path("steps", "st0", "got", "lst"), path("steps", "st0", "got", "lst"), path("parent", "lol")])
+    src_m = path("steps", "st0", "got", "m")
+    ov = lit(r.choice([{"a": {"z": 9}}, {"d": {"n": 1}}, {"e": {"f": {"h": 3}}, "new": [1]}]))
+    for i in range(1, r.randint(3, 5)):
+        l = f"st{i}"
+        kind = r.choice(["flatten", "flatten", "raw", "overlay", "mix"])
+        ins = [["dep", path("steps", "st0", "site")]]
+        if kind in ("flatten", "mix"):
+            ins.append(["fl", call("flatten", src_l())])
+        if kind in ("raw", "mix") or r.random() < 0.4:
+            ins.append(["raw", src_l()])
+        if kind in ("overlay", "mix"):
+            ins.append(["ov", call("overlay", src_m, ov)])
+        if r.random() < 0.4:
+            ins.append(["m", src_m])
+        if r.random() < 0.3:
+            ins.append(["n", call("size", call("flatten", path("steps", "st0", "got", "lst")))])
+        if i > 1 and r.random() < 0.3:
+            ins.append(["prev", path("steps", f"st{i - 1}", "got", "dep")])
+        fns[f"main.{l}"] = _vf() if r.random() < 0.7 else _rf(f"main.{l}", "get-ok")
+        fe = None
+        if r.random() < 0.2:
+            fe = {"itemIn": call("flatten", path("steps", "st0", "got", "lst")), "inputKey": "item"}
+        steps.append(_step(l, {"ref": {"fn": f"main.{l}"}}, inputs={"map": ins}, for_each=fe))
+    return {"trig": trig, "main": "main", "defs": [{"name": "main", "steps": steps}], "fns": fns}
+
+
+def gen_whole_steps_case(r):
+    """a step with a declared dependency whose inputs ALSO use `steps` as a whole (`size(steps)`, `"x" in steps`, `steps`
+    itself), listed after non-dependency steps whose API calls may finish before or after the dependency's"""
+    fns, steps = {}, []
+    n_other = r.randint(1, 2)
+    roles = ["gate"] + ["other"] * n_other
+    r.shuffle(roles)
+    gate = None
+    others = []
+    for i, role in enumerate(roles):
+        l = f"st{i}"
+        fns[f"main.{l}"] = _rf(f"main.{l}", r.choice(["get-ok", "match-ok"]))
+        steps.append(_step(l, {"ref": {"fn": f"main.{l}"}}, inputs={"map": [["x", lit(i)]]}))
+        if role == "gate":
+            gate = l
+        else:
+            others.append(l)
+    k = len(steps)
+    probe = f"st{k}"
+    ins = [["g", path("steps", gate, "got", "x")]]
+    for kind in r.sample(["size", "in", "whole"], r.randint(1, 3)):
+        if kind == "size":
+            ins.append(["n", call("size", path("steps"))])
+        elif kind == "in":
+            ins.append(["has", call("in", lit(r.choice(others)), path("steps"))])
+        else:
+            ins.append(["all", path("steps")])
+    fns[f"main.{probe}"] = _vf() if r.random() < 0.6 else _rf(f"main.{probe}", "get-ok")
+    steps.append(_step(probe, {"ref": {"fn": f"main.{probe}"}}, inputs={"map": ins}))
+    l = f"st{k + 1}"
+    fns[f"main.{l}"] = _vf()
+    steps.append(_step(l, {"ref": {"fn": f"main.{l}"}}, inputs={"map": [["p", path("steps", probe, "got")]]}))
+    return {"trig": gen_trigger(r), "main": "main", "defs": [{"name": "main", "steps": steps}], "fns": fns}
+
+
+WIDE_ITEMS = [f"w{i}" for i in range(12)]
+
+
+def gen_fanout_case(r):
+    """wide fan-out: 5-12 ResourceFunction evaluations that all start at once (independent steps and / or one forEach),
+    one level deep, then a join"""
+    fns, steps = {}, []
+    shape = r.choice(["steps", "foreach", "both"])
+    if shape in ("steps", "both"):
+        for i in range(r.randint(5, 8) if shape == "steps" else r.randint(2, 4)):
+            l = f"st{i}"
+            fns[f"main.{l}"] = _rf(f"main.{l}", r.choice(["get-ok", "match-ok", "get-ok", "create", "patch"]), d=7)
+            steps.append(_step(l, {"ref": {"fn": f"main.{l}"}}, inputs={"map": [["x", lit(i)]]}))
+    if shape in ("foreach", "both"):
+        l = f"st{len(steps)}"
+        items = WIDE_ITEMS[:r.randint(5, 12)]
+        f = _rf(f"main.{l}", r.choice(["get-ok", "match-ok"]), name_key="item")
+        f["rf"]["items"] = list(WIDE_ITEMS)
+        fns[f"main.{l}"] = f
+        steps.append(_step(l, {"ref": {"fn": f"main.{l}"}}, inputs={"map": [["k", lit(1)]]},
+                           for_each={"itemIn": lit(items), "inputKey": "item"}))
+    l = f"st{len(steps)}"
+    fns[f"main.{l}"] = _vf()
+    refs = r.sample([s["label"] for s in steps], min(len(steps), 2))
+    steps.append(_step(l, {"ref": {"fn": f"main.{l}"}}, inputs={"map": [[f"d{j}", path("steps", x)] for j, x in enumerate(refs)]}))
+    return {"trig": gen_trigger(r), "main": "main", "defs": [{"name": "main", "steps": steps}], "fns": fns}
+
+
 def gen_race_case(r):
     """a step with ≥ 2 dependencies that are NOT Ok and each finish on an API call (so that their completion order
     can be permuted), `condition` declared on the dependent and on the steps downstream of it"""
@@ -711,6 +820,8 @@ def _wire_expr(e):
         return {"map": [[k, _wire_expr(x)] for k, x in e["map"]]}
     if "list" in e:
         return {"list": [_wire_expr(x) for x in e["list"]]}
+    if "call" in e:
+        return {"call": e["call"], "args": [_wire_expr(x) for x in e["args"]]}
     return {"bad": True}
 
 
@@ -786,6 +897,13 @@ def cel_expr(e):
         return "=1/0"
     if "list" in e:
         return "=[" + ", ".join(cel_expr(x)[1:] for x in e["list"]) + "]"
+    if "call" in e:
+        a = [cel_expr(x)[1:] for x in e["args"]]
+        if e["call"] == "in":
+            return f"={a[0]} in {a[1]}"
+        if e["call"] == "size":
+            return f"=size({a[0]})"
+        return f"={a[0]}.{e['call']}({', '.join(a[1:])})"       # flatten / overlay: method style
     return "={" + ", ".join(cel_lit(k) + ": " + cel_expr(x)[1:] for k, x in e["map"]) + "}"
 
 
@@ -834,7 +952,8 @@ def fn_spec(fid, f):
     name = rf["prefix"] if not rf["nameKey"] else f'="{rf["prefix"]}." + inputs.{rf["nameKey"]}'
     kind = rf.get("kind", KIND)
     spec = {"apiConfig": {"apiVersion": rf.get("apiVersion", API_VERSION), "kind": kind, "plural": kind.lower() + "s",
-                          "name": name, "namespace": NS, "readonly": rf["mode"] in READONLY_MODES},
+                          "name": name, "namespace": NS, "readonly": rf["mode"] in READONLY_MODES,
+                          **({"deleteIfExists": True} if rf["mode"] == "delete" else {})},
             "resource": {"spec": {"want": 1}},
             "create": {"delay": f["d"]},
             "update": {"recreate" if rf["mode"] == "recreate" else "patch": {"delay": f["d"]}},
@@ -852,7 +971,7 @@ def fn_spec(fid, f):
 
 def resource_names(f):
     rf = f["rf"]
-    return [rf["prefix"]] if not rf["nameKey"] else [f'{rf["prefix"]}.{it}' for it in ITEMS]
+    return [rf["prefix"]] if not rf["nameKey"] else [f'{rf["prefix"]}.{it}' for it in rf.get("items", ITEMS)]
 
 
 def initial_objects(case, owner_ref):
